@@ -1218,10 +1218,10 @@ namespace awkward {
       }
       std::shared_ptr<int64_t> toindex =
           kernel::malloc<int64_t>(kernel::lib::cpu,   // DERIVE
-                                  size*(int64_t)sizeof(int64_t));
+                                  n*(int64_t)sizeof(int64_t));
       std::shared_ptr<int64_t> fromindex =
           kernel::malloc<int64_t>(kernel::lib::cpu,   // DERIVE
-                                  size*(int64_t)sizeof(int64_t));
+                                  n*(int64_t)sizeof(int64_t));
 
       if (size_ != 0) {
         struct Error err = kernel::RegularArray_combinations_64(
